@@ -35,7 +35,10 @@ def text(sym, name, n, focus, minlen=0):
 SHAPES = {
     "single": [("Server", "Server", None, "variant")],
     "two-top": [("Server", "Server", None, "variant"), ("Client", "Client", None, "variant")],
-    "dashed": [("Server", "Server", None, "variant"), ("Server-optional", "Server-optional", None, "optional")],
+    # a dashed top-level UID: the id itself has no dash, the variant is filed under its UID (Variants.add(v, variant_id=uid))
+    "dashed": [("Server", "Server", None, "variant"), ("optional", "Server-optional", None, "optional")],
+    # the alphabetically first top-level variant is not of type 'variant' (an optional tree next to its base variant's sibling)
+    "optional-first": [("optional", "Client-optional", None, "optional"), ("Server", "Server", None, "variant")],
     "children": [("Server", "Server", None, "variant"), ("HA", "Server-HA", "Server", "addon"), ("LB", "Server-LB", "Server", "addon")],
     "child-types": [("Server", "Server", None, "variant"), ("X", "Server-X", "Server", None)],
     "nested": [("Server", "Server", None, "variant"), ("HA", "Server-HA", "Server", "addon"), ("Deep", "Server-HA-Deep", "Server-HA", "addon")],
@@ -78,7 +81,10 @@ def build(sym, shape, opts, focus):
                 setattr(v.paths, field, text(sym, "p_%s_%s" % (uid.replace("-", "_"), field), 3, focus))
         objs[uid] = v
         if parent is None:
-            ti.variants.add(v)
+            if vid != uid:
+                ti.variants.add(v, variant_id=uid)
+            else:
+                ti.variants.add(v)
         else:
             objs[parent].add(v)
     for platform, names in opts["images"].items():
